@@ -909,7 +909,7 @@ func c09UnfoldAccumulators(ctx *Ctx, r *Report) {
 		r.Undecided("anchor lost: template unfold_builders")
 		return
 	}
-	n := 0
+	n, conds := 0, 0
 	var visit func(l *parse.ListNode)
 	visit = func(l *parse.ListNode) {
 		if l == nil {
@@ -923,6 +923,20 @@ func c09UnfoldAccumulators(ctx *Ctx, r *Report) {
 			case *parse.ActionNode:
 				text += "⟦" + x.Pipe.String() + "⟧"
 			case *parse.IfNode:
+				// the test under which a value is expanded further has to name both kinds of containers: a value
+				// that is a map (or a list) and falls into the else-part gets `.Build()` called on it
+				recursesHere := false
+				for _, inner := range x.List.Nodes {
+					if tn, ok := inner.(*parse.TemplateNode); ok && tn.Name == "unfold_builders" {
+						recursesHere = true
+					}
+				}
+				if recursesHere && x.ElseList != nil {
+					conds++
+					c := x.Pipe.String()
+					r.Check(strings.Contains(c, "IsArray") && strings.Contains(c, "IsMap"), "skeleton/unfold-recurses-into-containers", fmt.Sprintf("unfold_builders expansion test #%d", conds), token.NoPos, "the value is expanded further when it is a list or a map",
+						ts.file["unfold_builders"]+": unfold_builders expands a value further under `"+c+"` only: the other kind of container (a map of maps, a list of maps of builders) falls into the else-part, where Build() is called on the container — the generated builder does not type-check")
+				}
 				visit(x.List)
 				visit(x.ElseList)
 			case *parse.RangeNode:
@@ -936,7 +950,18 @@ func c09UnfoldAccumulators(ctx *Ctx, r *Report) {
 					continue
 				}
 				n++
-				declared := regexp.MustCompile(`Depth⟦\.Depth⟧\s*:=\s*make\(`).MatchString(text)
+				declRe := regexp.MustCompile(`Depth⟦\.Depth⟧\s*:=\s*make\(`)
+				declared := declRe.MatchString(text)
+				if !declared {
+					// the declaration can be limited to list values (`{{ if ….IsArray }}x := make(…){{ end }}`) when the branch
+					// that expands a map declares its own result (`{{ .ResultVar }} := make(…)`): both shapes are then covered
+					mapDeclares := regexp.MustCompile(`⟦\.ResultVar⟧\s*:=\s*make\(`).MatchString(tmplTextFull(tree.Root))
+					for _, sib := range l.Nodes {
+						if in, ok := sib.(*parse.IfNode); ok && strings.Contains(in.Pipe.String(), "IsArray") && !strings.Contains(in.Pipe.String(), "IsMap") && declRe.MatchString(tmplTextFull(in.List)) && mapDeclares {
+							declared = true
+						}
+					}
+				}
 				r.Check(declared, "skeleton/unfold-accumulator-declared", fmt.Sprintf("unfold_builders recursive call #%d", n), token.NoPos, "the result variable of the nested expansion is declared before the call",
 					ts.file["unfold_builders"]+": unfold_builders recurses with ResultVar "+res+" without having declared that variable in the branch: the nested expansion appends to an undeclared name — the generated builder does not compile (map of lists of builders)")
 			}
@@ -945,6 +970,8 @@ func c09UnfoldAccumulators(ctx *Ctx, r *Report) {
 	visit(tree.Root)
 	r.Count("recursive calls of unfold_builders with a depth-named result", n)
 	r.Floor("recursive calls of unfold_builders with a depth-named result", 2)
+	r.Count("expansion tests of unfold_builders", conds)
+	r.Floor("expansion tests of unfold_builders", 2)
 }
 
 // c09ConstraintsThroughReferences: Python options check the constraints the *assignment* carries (Go relies on the
@@ -1008,4 +1035,20 @@ func c09ConstraintsThroughReferences(ctx *Ctx, r *Report) {
 	}
 	r.Check(elements, "derive/constraints-of-elements", "ast.FieldAssignment element constraints", fd.Pos(), "the constraints of list / map elements are looked at",
 		"the derivation never looks into the elements of a list or a map: `tags: [...string & strings.MinRunes(1)]` gives an option without any constraint — Python: tags([\"\"]).build() is accepted (Go's Build() calls the generated Validate(), which has the check)")
+}
+
+// tmplTextFull renders a subtree with every action written as ⟦pipeline⟧ (tmplText hides the pipelines).
+func tmplTextFull(n parse.Node) string {
+	var b strings.Builder
+	walkTmpl(n, func(m parse.Node) bool {
+		switch x := m.(type) {
+		case *parse.TextNode:
+			b.Write(x.Text)
+		case *parse.ActionNode:
+			b.WriteString("⟦" + x.Pipe.String() + "⟧")
+			return false
+		}
+		return true
+	})
+	return b.String()
 }
